@@ -37,39 +37,55 @@ def _nl(b: bytes) -> str:
     return '[' + ';'.join(str(x) for x in b) + ']'
 
 
+def coq_attr(rec: list, encoding: str) -> str:
+    def s(x: str) -> str:
+        return _nl(x.encode(encoding))
+    name, typ, is_arr, vals = rec
+    if typ == 'ELEMENT':
+        items = ['RNull' if v is None else (f'(RElem {v})' if isinstance(v, int)
+                 else f'(RStub {_nl(str(uuidmod.UUID(hex=v[1])).encode("ascii"))})') for v in vals]
+        mk = 'VElem'
+    elif typ == 'STRING':
+        items, mk = [s(v) for v in vals], 'VStr'
+    elif typ == 'BINARY':
+        items, mk = [_nl(bytes.fromhex(v)) for v in vals], 'VBin'
+    else:
+        items, mk = [_nl(wire_bytes(typ, v)) for v in vals], f'VFix {COQ_TYPE[typ]}'
+    shape = f'(Array {coq_list(items)})' if is_arr else f'(Scalar {items[0]})'
+    return f'{{| aname := {s(name)}; adata := {mk} {shape} |}}'
+
+
 def coq_doc(c: dict, encoding: str) -> str:
     """A canonical spec as a Coq [doc] literal; strings are pre-encoded (the model runs with the identity codec)."""
     def s(x: str) -> str:
         return _nl(x.encode(encoding))
     els = []
     for e in c['elems']:
-        attrs = []
-        for name, typ, is_arr, vals in e['attrs']:
-            if typ == 'ELEMENT':
-                items = ['RNull' if v is None else (f'(RElem {v})' if isinstance(v, int)
-                         else f'(RStub {_nl(str(uuidmod.UUID(hex=v[1])).encode("ascii"))})') for v in vals]
-                mk = 'VElem'
-            elif typ == 'STRING':
-                items, mk = [s(v) for v in vals], 'VStr'
-            elif typ == 'BINARY':
-                items, mk = [_nl(bytes.fromhex(v)) for v in vals], 'VBin'
-            else:
-                items, mk = [_nl(wire_bytes(typ, v)) for v in vals], f'VFix {COQ_TYPE[typ]}'
-            shape = f'(Array {coq_list(items)})' if is_arr else f'(Scalar {items[0]})'
-            attrs.append(f'{{| aname := {s(name)}; adata := {mk} {shape} |}}')
+        attrs = [coq_attr(a, encoding) for a in e['attrs']]
         els.append(f'{{| etype := {s(e["type"])}; ename := {s(e["name"])}; '
                    f'euuid := {_nl(uuidmod.UUID(hex=e["uuid"]).bytes_le)}; eattrs := {coq_list(attrs)} |}}')
     return coq_list(els)
 
 
+def coq_rdoc(c: dict, encoding: str) -> str:
+    """The real dicts of a canonical graph (U.canon: 'members', the name member included) as a Coq [rdoc] literal."""
+    def s(x: str) -> str:
+        return _nl(x.encode(encoding))
+    els = []
+    for e in c['elems']:
+        ms = [f'({s(k)}, {coq_attr(rec, encoding)})' for k, rec in e['members']]
+        els.append(f'{{| r_type := {s(e["type"])}; r_uuid := {_nl(uuidmod.UUID(hex=e["uuid"]).bytes_le)}; r_members := {coq_list(ms)} |}}')
+    return coq_list(els)
+
+
 MANIFEST = dict(
-    technique='Rocq proof (binary DMX body round trip for versions 0-5; type-code round trip; fixed-width value codecs through the shared struct model incl. the TIME codec over exact rationals with a proved binary64 rounding model; typed binary documents; KeyValues2 on the shared tokenizer model: reference decision tables, flat layout text -> tokens -> document -> graph (fix-up pass), nested layout with the full parser recursion by mutual nested induction; value strings through C05\'s exact %.6f model; KV1 bridge) + ast translator with 56 kernel-checked instance obligations + seven vm_compute correspondences (byte-exact binary, scalar codecs, KV2 flat / nested text exact, keyword predicate, value strings, KV1 bridge) + isomorphism oracle on real graphs',
-    text='Theorems in Props/C14.v (46; all closed under the global context): the attribute type byte decodes to the same (type, array?) pair; parse_bin (export_bin d) = d for every expressible document (versions 0-5); every fixed-width value representable in its wire type (int32, binary32 patterns, booleans, tick-exact times, colour bytes, vectors, angles in [0,360), quaternions, the 3x3 part of a matrix) is packed by the generated struct format into calcsize bytes and unpacked to the same value (Bin/Struct unpack_pack instantiated); round((k/S)*S) = k in binary64 for every 32-bit tick count, with |rn64 x - x| <= 2^-53 |x| proved for the executable rounding model, and int() instead of round() refuted by a computed witness; typed documents survive lower -> export_bin -> parse_bin -> lift; a KV2 reference decision table meeting its condition writes NULL / stub / root / inline exactly as the format needs and the two sites agree (dropping `or is_stub` refuted); the flat-layout text of any document re-tokenises (C02 quoted_embedding composed) and re-parses to the document, and linking UUID references gives back the graph (sharing, cycles, NULL, stubs) for pairwise distinct ids; the nested-layout text re-parses to the tree of inline blocks at any depth provided no inline element has an attribute type keyword as its type (refuted otherwise: the defect repaired in this round); FLOAT / vector component text denotes the value rounded half-even at 6 places, vector texts split into their components, int and colour texts parse back; to_kv1 (from_kv1 t) = t. All configurations (type codes, sizes, struct formats, TIME rounding function and scales, MATRIX slot layout, codec per string site, stub payload, KV2 escaping / codec per field, the two reference if-chains, the keyword-root rule, Tokenizer kwargs, ValueType keywords, _fmt_float and the vector / colour string converters, KV1 constants) are regenerated from dmx.py (tokenizer tables from tokenizer.py) on every run and the premises are kernel-checked as named obligations. The models are compared with the implementation on generated inputs on every run; generated graphs (DAGs, cycles, stubs, NULLs, all types, empty arrays, 3 unicode modes, versions 1-5, KV2 flat/nested/cull_uuid) are round-tripped through Element.parse and compared up to isomorphism.',
-    note='Trusted: Coq kernel + vm_compute, translate/c14_dmx.py and translate/c02_tables.py, the hand models Fmt/DmxBin.v, Fmt/DmxKv1.v, Fmt/DmxScalar.v, Fmt/DmxKv2.v, Fmt/DmxKv2Nested.v, Fmt/DmxValText.v (each tied by a differential run on every run) and the shared Bin/Struct.v, Text/Tokenizer.v, Num/Dec6.v; CPython codecs / uuid (str.encode/decode and UUID text are parameters or opaque texts); binary64 arithmetic is rn64 of the exact result (no exponent range; compared with CPython float * and / on every run); a binary32 value is its bit pattern (harness converts with struct "<f"); FrozenAngle normalisation identity on [0,360) is a hypothesis checked on sampled patterns; breadth-first numbering of the object graph is done by the harness and checked by the byte-exact comparison. Not modelled (oracle only): which elements export_kv2 makes roots in the nested layout (recomputed by the harness for the text comparison; the keyword rule is an obligation + predicate correspondence) and the graph <-> block-tree step of the nested layout, float(text) / str(float) / hex / bool strings, malformed KV2 input, the DMX header line and unicode flag, format name/version. No known finding left: the round-1 finding (inline element whose type is an attribute type keyword) is repaired in the repo branch.',
+    technique='Rocq proof (binary DMX body round trip for versions 0-5; type-code round trip; fixed-width value codecs through the shared struct model incl. the TIME codec over exact rationals with a proved binary64 rounding model; typed binary documents; KeyValues2 on the shared tokenizer model: reference decision tables, flat layout text -> tokens -> document -> graph (fix-up pass), nested layout with the full parser recursion by mutual nested induction; value strings through C05\'s exact %.6f model; KV1 bridge; round 3: the ordered dict of members of an element of members below the binary document - attribute count = records written for every history of the mapping API, export of the real dicts = export of the document they denote; the dict the readers build is keyed by the casefolded names and is the canonical form of the exported dict; KeyValues2 at the level of the dict: what the reader builds from the records the writer wrote denotes the same element) + ast translator (normalising: helper inlining, single-use locals, else-after-return, Struct constants, loop vs comprehension, locals by role) with 67 kernel-checked instance obligations + seven vm_compute correspondences (byte-exact binary, scalar codecs, KV2 flat / nested text exact, keyword predicate, value strings, KV1 bridge) + isomorphism oracle on real graphs',
+    text='Theorems in Props/C14.v (72; all closed under the global context): the attribute type byte decodes to the same (type, array?) pair; parse_bin (export_bin d) = d for every expressible document (versions 0-5); every fixed-width value representable in its wire type (int32, binary32 patterns, booleans, tick-exact times, colour bytes, vectors, angles in [0,360), quaternions, the 3x3 part of a matrix) is packed by the generated struct format into calcsize bytes and unpacked to the same value (Bin/Struct unpack_pack instantiated); round((k/S)*S) = k in binary64 for every 32-bit tick count, with |rn64 x - x| <= 2^-53 |x| proved for the executable rounding model, and int() instead of round() refuted by a computed witness; typed documents survive lower -> export_bin -> parse_bin -> lift; a KV2 reference decision table meeting its condition writes NULL / stub / root / inline exactly as the format needs and the two sites agree (dropping `or is_stub` refuted); the flat-layout text of any document re-tokenises (C02 quoted_embedding composed) and re-parses to the document, and linking UUID references gives back the graph (sharing, cycles, NULL, stubs) for pairwise distinct ids; the nested-layout text re-parses to the tree of inline blocks at any depth provided no inline element has an attribute type keyword as its type (refuted otherwise: the defect repaired in this round); FLOAT / vector component text denotes the value rounded half-even at 6 places, vector texts split into their components, int and colour texts parse back; to_kv1 (from_kv1 t) = t. All configurations (type codes, sizes, struct formats, TIME rounding function and scales, MATRIX slot layout, codec per string site, stub payload, KV2 escaping / codec per field, the two reference if-chains, the keyword-root rule, Tokenizer kwargs, ValueType keywords, _fmt_float and the vector / colour string converters, KV1 constants) are regenerated from dmx.py (tokenizer tables from tokenizer.py) on every run and the premises are kernel-checked as named obligations. The models are compared with the implementation on generated inputs on every run; generated graphs (DAGs, cycles, stubs, NULLs, all types, empty arrays, 3 unicode modes, versions 1-5, KV2 flat/nested/cull_uuid) are round-tripped through Element.parse and compared up to isomorphism. Round 3 (47-72): for every count expression / loop filters / Element.name meeting cnt_cfg_ok and every dict with pairwise distinct keys the attribute count export_binary writes equals the number of records it writes, with or without the name member; every operation of the mapping API (clear, del, pop, popitem, name setter, item assignment, setdefault) keeps the keys distinct and the dict keyed by the casefolded names, hence every history on a fresh element; export_raw on the real dicts = export_bin of the document they denote and parses back to it (versions 0-5); len(elem) - 1 and a record loop testing attr.name are refuted by computed witnesses; from_kv1 with both name tests on the casefolded name is the proved bridge, either test on the case-preserved name is refuted; the dict a reader builds from a document element is the name member followed by one member per record under its casefolded name, elem[a.name] finds every attribute, it denotes the document element, and composed with the export theorems it is the canonical form of the exported dict; a reader storing under the name as written is refuted. KeyValues2 at the level of the dict: for every dict keyed by the casefolded names whose name member is a string, either name test of the reader and every skip test of the writer that skips only the member keyed name, the dict read from the records written is the name member holding Element.name followed by every other member under its key in order, so it denotes the same element - for every API history; a name member spelled NAME keeps its spelling through KeyValues2 (computed example); a loop skipping another key is refuted.',
+    note='Trusted: Coq kernel + vm_compute, translate/c14_dmx.py and translate/c02_tables.py, the hand models Fmt/DmxBin.v, Fmt/DmxKv1.v, Fmt/DmxScalar.v, Fmt/DmxKv2.v, Fmt/DmxKv2Nested.v, Fmt/DmxValText.v (each tied by a differential run on every run) and the shared Bin/Struct.v, Text/Tokenizer.v, Num/Dec6.v; CPython codecs / uuid (str.encode/decode and UUID text are parameters or opaque texts); binary64 arithmetic is rn64 of the exact result (no exponent range; compared with CPython float * and / on every run); a binary32 value is its bit pattern (harness converts with struct "<f"); FrozenAngle normalisation identity on [0,360) is a hypothesis checked on sampled patterns; breadth-first numbering of the object graph is done by the harness and checked by the byte-exact comparison. Not modelled (oracle only): which elements export_kv2 makes roots in the nested layout (recomputed by the harness for the text comparison; the keyword rule is an obligation + predicate correspondence) and the graph <-> block-tree step of the nested layout, float(text) / str(float) / hex / bool strings, malformed KV2 input, the DMX header line and unicode flag, format name/version. Round 3: the members-level models Fmt/DmxMembers.v / Fmt/DmxMembersParse.v are tied by correspondence:binary (export_raw on the real dicts byte-exact; the dicts of the parsed elements, for ASCII names) and by the translated count expression, loop filters, Element.name, Element.__init__ and the key expression of the three member stores; Fmt/DmxMembersKv2.v is tied by the translated skip test of _export_kv2, the name test of _parse_kv2_element and correspondence:binary code 6 (keys and spellings after a flat KeyValues2 round trip, ASCII names); the dict-level KeyValues2 theorems are not composed with the text-level ones (records -> text -> records is theorems 28 / 32 on documents of name + records); the member keyed "name" is the name of the element whatever its spelling or type (an attribute assigned as \'NAME\' is that member). No known finding left: the round-1 finding (inline element whose type is an attribute type keyword) is repaired in the repo branch.',
 )
 
 IMPORTS = ['Coq.NArith.NArith', 'Coq.ZArith.ZArith', 'Coq.Lists.List', 'Coq.Bool.Bool', 'SV.Fmt.DmxCodes', 'SV.Fmt.DmxBin',
-           'SV.Fmt.DmxKv1', 'SV.Fmt.DmxScalar', 'SV.Text.Str', 'SV.Text.Tokenizer', 'SV.Text.TokGen', 'SV.Fmt.DmxKv2',
+           'SV.Fmt.DmxMembers', 'SV.Fmt.DmxMembersParse', 'SV.Fmt.DmxMembersKv2', 'SV.Fmt.DmxKv1', 'SV.Fmt.DmxKv1Sel', 'SV.Fmt.DmxScalar', 'SV.Text.Str', 'SV.Text.Tokenizer', 'SV.Text.TokGen', 'SV.Fmt.DmxKv2',
            'SV.Num.Dec6', 'SV.Fmt.DmxValText', 'SV.Fmt.DmxHeader', 'SV.Gen.DmxCodes_gen', 'SV.Fmt.DmxKv2Inst']
 PRE_BIN = '''Import ListNotations. Open Scope N_scope.
 Definition idenc (_ : enc) (s : str) : bytes := s.
@@ -85,9 +101,36 @@ Definition aval_eqb (a b : aval) := match a, b with
 Definition attr_eqb (a b : attr) := nl_eqb (aname a) (aname b) && aval_eqb (adata a) (adata b).
 Definition elem_eqb (a b : elem) := nl_eqb (etype a) (etype b) && nl_eqb (ename a) (ename b) && nl_eqb (euuid a) (euuid b) && leqb attr_eqb (eattrs a) (eattrs b).
 Definition odoc_eqb (a b : option doc) := match a, b with Some x, Some y => leqb elem_eqb x y | None, None => true | _, _ => false end.
-(* result code per case: 0 ok, 1 model export differs from implementation bytes, 2 model parse differs *)
-Definition chk (c : N * doc * bytes * option doc) : N := let '(v, d, b, p) := c in
-  if nl_eqb (export_bin idenc gen_cfg v d) b then (if odoc_eqb (parse_bin iddec gen_cfg v b) p then 0 else 2) else 1.
+(* result code per case: 0 ok, 1 model export differs from implementation bytes, 2 model parse differs,
+   3 the export of the real dicts (count expression and loop filters read from the source) differs from the bytes,
+   4 the document the real dicts denote differs from the document the harness computed from the spec and its history,
+   5 the dicts the reader model builds from the parsed document (key expression read from the source) differ from the
+     dicts of the elements Element.parse returned (given when every attribute name is ASCII: casefold = A-Z -> a-z) *)
+Definition ascii_lower (s : str) : str := map (fun c => if (65 <=? c) && (c <=? 90) then c + 32 else c) s.
+Definition members_eqb (a b : members) := leqb (fun x y : str * attr => nl_eqb (fst x) (fst y) && attr_eqb (snd x) (snd y)) a b.
+Definition reader_dicts_ok (p : option doc) (pr : option rdoc) : bool :=
+  match p, pr with
+  | Some pd, Some prd => leqb members_eqb (map (parsed_members ascii_lower (pk_bin gen_parse)) pd) (map r_members prd)
+  | _, _ => true
+  end.
+(* 6: the same graph through KeyValues2 (flat layout): keys and spellings of the dict the model of the KV2 writer + reader
+   gives for every exported dict (skip test, name test and key expression read from the source) differ from the dicts
+   of the elements Element.parse returned (given when every name is ASCII) *)
+Definition shape_of (m : members) : list (str * str) := map (fun ka : str * attr => (fst ka, aname (snd ka))) m.
+Definition kv2_dicts_ok (rd : rdoc) (kv : option (list (list (str * str)))) : bool :=
+  match kv with
+  | Some l => leqb (leqb (fun x y : str * str => nl_eqb (fst x) (fst y) && nl_eqb (snd x) (snd y)))
+                (map (fun r => shape_of (kv2_read ascii_lower gen_kv2_name_test (pk_kv2_attr gen_parse) [] (kv2_written gen_cnt gen_kv2_skip (r_members r)))) rd) l
+  | None => true
+  end.
+Definition chk (c : N * doc * bytes * option doc * rdoc * option rdoc * option (list (list (str * str)))) : N := let '(v, d, b, p, rd, pr, kv) := c in
+  if nl_eqb (export_bin idenc gen_cfg v d) b
+  then (if odoc_eqb (parse_bin iddec gen_cfg v b) p
+        then (if nl_eqb (export_raw idenc gen_cfg gen_cnt v rd) b
+              then (if odoc_eqb (Some (map (abstract gen_cnt) rd)) (Some d)
+                    then (if reader_dicts_ok p pr then (if kv2_dicts_ok rd kv then 0 else 6) else 5) else 4) else 3)
+        else 2)
+  else 1.
 Fixpoint bad_idx {A} (f : A -> N) (n : N) (l : list A) : list N := match l with [] => [] | x :: r => (if f x =? 0 then [] else [n * 10 + f x]) ++ bad_idx f (n + 1) r end.
 '''
 
@@ -130,14 +173,17 @@ def _all_strings(spec):
     for e in spec['elems']:
         yield e['type']
         yield e['name']
-        for name, typ, _, vals in e['attrs']:
-            yield name
-            if typ == 'STRING':
-                yield from vals
+        for op in e.get('ops', ()):
+            if op[0] == 'setname':
+                yield op[1]
+        for a in U.payloads(e):
+            yield a[0]
+            if a[1] == 'STRING':
+                yield from a[3]
 
 
 def _has_time(spec) -> bool:
-    return any(a[1] == 'TIME' for e in spec['elems'] for a in e['attrs'])
+    return any(a[1] == 'TIME' for e in spec['elems'] for a in U.payloads(e))
 
 
 # ------------------------------------------------------------------------------------------------ corpus
@@ -182,6 +228,22 @@ CORPUS: list[tuple[str, dict, list[dict]]] = [
                           {'type': 'L', 'name': 'leaf', 'uuid': _U[3], 'attrs': [['selfarr', 'ELEMENT', True, [3, None]]]}]},
      [{'fmt': 'binary', 'version': v, 'unicode': 'ascii'} for v in (1, 3, 5)] +
      [{'fmt': 'kv2', 'flat': f, 'cull_uuid': c, 'unicode': 'ascii'} for f in (False, True) for c in (False, True)]),
+    # API histories: the 'name' member removed through the public mapping API, other attributes kept or added afterwards
+    ('history-cleared-then-filled', {'elems': [{'type': 'T', 'name': 'n', 'uuid': _U[0], 'attrs': [['old', 'INTEGER', False, [1]]],
+                                                'ops': [['clear'], ['set', 'a', 'INTEGER', False, [5]], ['set', 'kid', 'ELEMENT', False, [1]]]},
+                                               {'type': 'C', 'name': 'c', 'uuid': _U[1], 'attrs': [['q', 'STRING', False, ['s']]]}]},
+     [{'fmt': 'binary', 'version': v, 'unicode': 'ascii'} for v in (1, 2, 4, 5)] +
+     [{'fmt': 'kv2', 'flat': f, 'cull_uuid': False, 'unicode': 'ascii'} for f in (False, True)]),
+    ('history-name-deleted', {'elems': [{'type': 'T', 'name': 'root', 'uuid': _U[0], 'attrs': [['kid', 'ELEMENT', True, [1, 1]]]},
+                                        {'type': 'C', 'name': 'gone', 'uuid': _U[1], 'attrs': [['x', 'FLOAT', False, [0.5]], ['y', 'STRING', True, ['p', 'q']]],
+                                         'ops': [['del', 'NAME']]}]},
+     [{'fmt': 'binary', 'version': v, 'unicode': 'ascii'} for v in (1, 3, 5)] + [{'fmt': 'kv2', 'flat': False, 'cull_uuid': True, 'unicode': 'ascii'}]),
+    ('history-name-popped-and-readded', {'elems': [{'type': 'T', 'name': 'first', 'uuid': _U[0], 'attrs': [['a', 'INTEGER', False, [1]], ['b', 'BOOL', False, [True]]],
+                                                    'ops': [['pop', 'Name'], ['pop', 'a'], ['set', 'NAME', 'STRING', False, ['again']], ['set', 'c', 'INTEGER', False, [3]]]}]},
+     [{'fmt': 'binary', 'version': v, 'unicode': 'ascii'} for v in (1, 4, 5)] + [{'fmt': 'kv2', 'flat': True, 'cull_uuid': False, 'unicode': 'ascii'}]),
+    ('history-popitem-to-nothing-then-setter', {'elems': [{'type': 'T', 'name': 'n', 'uuid': _U[0], 'attrs': [['a', 'INTEGER', False, [1]]],
+                                                           'ops': [['popitem'], ['popitem'], ['set', 'z', 'COLOR', False, [[1, 2, 3, 4]]], ['setname', 'late']]}]},
+     [{'fmt': 'binary', 'version': v, 'unicode': 'ascii'} for v in (2, 5)] + [{'fmt': 'kv2', 'flat': False, 'cull_uuid': False, 'unicode': 'ascii'}]),
     ('all-empty-arrays', _one([[f'e{i}', t, True, []] for i, t in enumerate(U.TYPES)]),
      [{'fmt': 'binary', 'version': 3, 'unicode': 'ascii'}, {'fmt': 'binary', 'version': 5, 'unicode': 'ascii'},
       {'fmt': 'kv2', 'flat': False, 'cull_uuid': False, 'unicode': 'ascii'}]),
@@ -192,7 +254,7 @@ CORPUS: list[tuple[str, dict, list[dict]]] = [
 def corr_binary(ck: Ck) -> None:
     """Model export vs export_binary (byte-exact) and model parse of the implementation's bytes vs parse_bin."""
     from srctools import dmx
-    n = ck.budget(180, 3000)
+    n = ck.budget(100, 3000)
     cases = []
     corpus = [(s, m) for _, s, ms in CORPUS for m in ms if m['fmt'] == 'binary']
     for i in range(n):
@@ -200,25 +262,48 @@ def corr_binary(ck: Ck) -> None:
             spec, mode = corpus[i]
         else:
             mode = rand_mode(ck.rng, 'binary')
-            spec = U.gen_spec(ck.rng, mode['unicode'] != 'ascii', allow_time=mode['version'] >= 3)
+            spec = U.gen_spec(ck.rng, mode['unicode'] != 'ascii', allow_time=mode['version'] >= 3, histories=0.25)
+            if ck.rng.random() < 0.05:      # the name assigned as an attribute spelled in another case
+                spec['elems'][0]['attrs'].insert(ck.rng.randint(0, len(spec['elems'][0]['attrs'])), [ck.rng.choice(['Name', 'NAME']), 'STRING', False, ['nm']])
         c = U.reachable_canon(spec)
-        if any(a[0].casefold() == 'name' for e in c['elems'] for a in e['attrs']):
-            continue        # the reserved name attribute is outside the model (searched only)
         try:
+            real = U.canon(U.build(spec)[0])
             data = U.export_bytes(spec, mode['version'], mode['unicode'])
         except Exception:
             ck.count('corr_binary_export_error')
             continue
+        if any(e['members'] is None for e in real['elems']):
+            continue
+        for e in c['elems']:
+            ck.hist('corr_binary_name_member', 'missing' if not e['has_name'] else ('first' if not e['name_pos'] else 'later'))
         cut = data.find(b'-->\n\0')
         body = data[cut + 5:]
+        prl = 'None'
         try:
             got, _, _ = dmx.Element.parse(io.BytesIO(data), unicode=(mode['unicode'] == 'silent'))
-            parsed = coq_doc(U.canon(got), 'utf8')
+            cg = U.canon(got)
+            parsed = coq_doc(cg, 'utf8')
             pl = f'(Some {parsed})'
+            if all(e['members'] is not None and all(rec[0].isascii() for _, rec in e['members']) for e in cg['elems']):
+                prl = f'(Some {coq_rdoc(cg, "utf8")})'       # the dicts of the parsed elements, keys included
+                ck.count('corr_binary_reader_dicts')
         except Exception:
             pl = 'None'
             ck.count('corr_binary_impl_parse_error')
-        cases.append((mode, spec, f'({mode["version"]}, {coq_doc(c, "utf8")}, {_nl(body)}, {pl})'))
+        kvl = 'None'
+        if all(rec[0].isascii() for e in real['elems'] for _, rec in e['members']):
+            try:      # the same graph through KeyValues2, flat layout (every element a top-level block): keys and spellings of the parsed dicts
+                buf2 = io.BytesIO()
+                U.build(spec)[0].export_kv2(buf2, flat=True, unicode=mode['unicode'])
+                g2, _, _ = dmx.Element.parse(io.BytesIO(buf2.getvalue()), unicode=(mode['unicode'] == 'silent'))
+                c2 = U.canon(g2)
+                if len(c2['elems']) == len(real['elems']) and all(e['members'] is not None for e in c2['elems']):
+                    kvl = '(Some ' + coq_list(coq_list(f'({_nl(k.encode("utf8"))}, {_nl(rec[0].encode("utf8"))})' for k, rec in e['members'])
+                                              for e in c2['elems']) + ')'
+                    ck.count('corr_binary_kv2_dicts')
+            except Exception:
+                ck.count('corr_binary_kv2_error')
+        cases.append((mode, spec, f'({mode["version"]}, {coq_doc(c, "utf8")}, {_nl(body)}, {pl}, {coq_rdoc(real, "utf8")}, {prl}, {kvl})'))
         ck.count('corr_binary_cases')
         ck.hist('corr_binary_version', mode['version'])
         if len(c['elems']) > 1 or any(e['attrs'] for e in c['elems']):
@@ -241,7 +326,11 @@ def corr_binary(ck: Ck) -> None:
         i, code = bad[0]
         ck.tie_broken.append('correspondence binary (Fmt/DmxBin.v vs export_binary/parse_bin)')
         ck.extra['binary_disagreement'] = {'mode': cases[i][0], 'spec': cases[i][1],
-                                           'kind': {1: 'model export bytes differ', 2: 'model parse differs'}.get(code, code)}
+                                           'kind': {1: 'model export bytes differ', 2: 'model parse differs',
+                                                    3: 'export_raw (count expression / loop filters from the source, on the real dicts) differs from the bytes',
+                                                    4: 'the document the real dicts denote differs from the simulated history',
+                                                    5: 'the dicts the reader model builds (key expression from the source) differ from the dicts of the parsed elements',
+                                                    6: 'KeyValues2 flat round trip: keys / spellings of the dicts the writer + reader model gives differ from the parsed elements'}.get(code, code)}
 
 
 
@@ -588,7 +677,7 @@ def corr_kv2(ck: Ck) -> None:
     the model's text equals the exported text after the header line, and the model's parse of that text equals the
     string-level document of what Element.parse returns."""
     from srctools import dmx
-    n = ck.budget(24, 400)
+    n = ck.budget(20, 400)
     cases = []
     corpus = [s for _, s, ms in CORPUS if any(m['fmt'] == 'kv2' for m in ms)]
     for i in range(n):
@@ -749,7 +838,7 @@ def corr_kv2_nested(ck: Ck) -> None:
     """Fmt/DmxKv2Nested.v writer and parser vs export_kv2(flat=False, cull_uuid) and parse_kv2: exact text, and the
     parsed tree of blocks (inline elements where they were written)."""
     from srctools import dmx
-    n = ck.budget(24, 400)
+    n = ck.budget(20, 400)
     cases = []
     corpus = [s for _, s, ms in CORPUS if any(m['fmt'] == 'kv2' for m in ms)]
     for i in range(n):
@@ -1050,7 +1139,7 @@ Fixpoint el_eqb (a b : el) : bool := match a, b with El t ms, El t' ms' => kstr_
      | _, _ => false end) ms ms' end.
 Definition okv_eqb (a b : option kv) := match a, b with Some x, Some y => kv_eqb x y | None, None => true | _, _ => false end.
 Definition chk1 (c : kv * el * option kv) : N := let '(t, e, back) := c in
-  if el_eqb (from_kv1 lower gen_kv1 t) e then (if okv_eqb (to_kv1 lower gen_kv1 e) back then 0 else 2) else 1.
+  if el_eqb (from_kv1_sel lower gen_kv1 gen_kv1_reserved_sel gen_kv1_dup_sel t) e then (if okv_eqb (to_kv1 lower gen_kv1 e) back then 0 else 2) else 1.
 Fixpoint bad_idx {A} (f : A -> N) (n : N) (l : list A) : list N := match l with [] => [] | x :: r => (if f x =? 0 then [] else [n * 10 + f x]) ++ bad_idx f (n + 1) r end.
 '''
 
@@ -1064,7 +1153,7 @@ def corr_kv1(ck: Ck) -> None:
     ASCII lower-casing, which the Coq side uses for [fold])."""
     import warnings
     from srctools import dmx
-    n = ck.budget(300, 3000)
+    n = ck.budget(150, 3000)
     cases = []
     with warnings.catch_warnings():
         warnings.simplefilter('ignore')
@@ -1205,6 +1294,8 @@ def report_failure(ck: Ck, found: dict, spec: dict, mode: dict) -> None:
             cls = U.classify({'elems': [{'type': 'T', 'name': 'n', 'uuid': _U[0], 'attrs': [['a', a[1], a[2], vals]]}]})
         except Exception:
             pass
+    if stage == 'compare' and ' key: stored under ' in (problem or ''):
+        cls = 'attribute-not-found-under-its-name'       # same records, but the parsed dict is keyed inconsistently
     key = f'{mode_class(small, mode)}:{cls}'
     size = sum(len(e['attrs']) + 1 for e in small['elems'])
     if key not in found or size < found[key][3]:
@@ -1222,7 +1313,7 @@ def search_graphs(ck: Ck) -> None:
         else:
             mode = rand_mode(ck.rng)
             spec = U.gen_spec(ck.rng, mode['unicode'] != 'ascii',
-                              allow_time=not (mode['fmt'] == 'binary' and mode['version'] < 3))
+                              allow_time=not (mode['fmt'] == 'binary' and mode['version'] < 3), histories=0.12)
             if ck.rng.random() < 0.03:      # element types that collide with KV2 keywords
                 spec['elems'][-1]['type'] = ck.rng.choice(U.KV2_AMBIGUOUS_TYPES)
             if ck.rng.random() < 0.02:      # a differently-cased spelling of the reserved name attribute
@@ -1302,9 +1393,20 @@ OBLIGATIONS = {
     'kv2_color_text_components': 'color_text_ok gen_color_text_written gen_color_text_read',
     'kv2_scalar_text_functions': 'scalar_text_funcs_ok gen_int_text_funcs gen_float_text_funcs',
     'kv2_binary_text_is_spaced_upper_hex': 'hex_text_ok gen_hex_sep gen_hex_group gen_hex_upper',
+    'attr_count_is_number_of_records': 'count_expr_ok gen_cnt',
+    'attr_record_loop_skips_the_name_key': 'write_filter_ok gen_cnt',
+    'collecting_loop_skips_what_the_record_loop_skips': 'collect_filter_ok gen_cnt',
+    'element_name_reads_the_name_member': 'name_getter_ok gen_cnt',
+    'binary_reader_stores_attributes_under_casefolded_name': 'keyfn_folded (pk_bin gen_parse)',
+    'kv2_reader_stores_typed_attributes_under_casefolded_name': 'keyfn_folded (pk_kv2_attr gen_parse)',
+    'kv2_reader_stores_inline_elements_under_casefolded_name': 'keyfn_folded (pk_kv2_inline gen_parse)',
+    'new_element_starts_with_the_name_member': 'init_member_ok gen_parse',
+    'kv2_record_loop_skips_only_the_name_member': 'kv2_filter_ok gen_kv2_skip',
     'kv1_element_types_distinct': 'kv1_types_distinct gen_kv1',
     'kv1_keys_written_are_keys_read': 'kv1_keys_agree gen_kv1',
     'kv1_reserved_names_cover_name_and_subkeys': 'kv1_reserved_covers gen_kv1',
+    'kv1_reserved_test_reads_the_casefolded_name': 'sel_is_folded gen_kv1_reserved_sel',
+    'kv1_duplicate_test_reads_the_casefolded_name': 'sel_is_folded gen_kv1_dup_sel',
 }
 # which concrete violation keys explain which failed obligation (substring of the key)
 EXPLAIN = {
@@ -1333,6 +1435,18 @@ EXPLAIN = {
     'instance:time_scale_written_is_scale_read': ['binary', 'time'],
     'instance:matrix_cells_read_where_written': ['binary', 'matrix'],
     'instance:matrix_pack_has_16_slots': ['binary', 'matrix'],
+    'instance:attr_count_is_number_of_records': ['binary', ''],       # a wrong count misaligns the stream: elements without a name member or all others
+    'instance:attr_record_loop_skips_the_name_key': ['binary', ''],
+    'instance:collecting_loop_skips_what_the_record_loop_skips': ['binary', ''],
+    'instance:element_name_reads_the_name_member': ['', 'element-without-name-member'],
+    'instance:binary_reader_stores_attributes_under_casefolded_name': ['binary', 'attribute-not-found-under-its-name'],
+    'instance:kv2_reader_stores_typed_attributes_under_casefolded_name': ['kv2', 'attribute-not-found-under-its-name'],
+    'instance:kv2_reader_stores_inline_elements_under_casefolded_name': ['kv2', 'attribute-not-found-under-its-name'],
+    'instance:kv2_record_loop_skips_only_the_name_member': ['kv2', ''],
+    'instance:kv1_reserved_test_reads_the_casefolded_name': ['kv1-bridge', 'reserved-leaf-name'],
+    'instance:kv1_duplicate_test_reads_the_casefolded_name': ['kv1-bridge', 'duplicate-leaf-names'],
+    'instance:kv1_reserved_names_cover_name_and_subkeys': ['kv1-bridge', 'reserved-leaf-name'],
+    'correspondence:kv1-bridge': ['kv1-bridge', ''],
     'correspondence:scalar-codecs': ['binary', ''],
     'correspondence:binary': ['binary', ''],
 }
@@ -1361,7 +1475,9 @@ def runtime_agreement(ck: Ck, side: dict) -> None:
 def run(ck: Ck) -> None:
     from translate import c14_dmx
     ck.rule = ('graphs: random element graphs (1-6 elements; references to random elements incl. self, NULL, shared stubs; all 14 value '
-               'types scalar/array/empty; names, types and strings from pools with escapes, spaces, unicode) x (binary v1-5 | KV2 '
+               'types scalar/array/empty; names, types and strings from pools with escapes, spaces, unicode; 12 % (25 % in the binary '
+               'correspondence) with a history of mapping-API calls per element: clear / del / pop / popitem / name setter / item '
+               'assignment incl. NAME in another case / setdefault, so elements without a name member or with it not first) x (binary v1-5 | KV2 '
                'flat/nested/cull_uuid) x 3 unicode modes, non-trivial = more than one element or at least one attribute, distinct by '
                'canonical graph + mode; KV1: random Keyvalues trees (depth <= 3, reserved/duplicate/case-variant names, nested roots), '
                'in memory and through binary/KV2 files, non-trivial = block with >= 2 children; correspondence cases likewise; '
@@ -1373,6 +1489,9 @@ def run(ck: Ck) -> None:
     ck.trusted.append('hand-written models Fmt/DmxBin.v, Fmt/DmxKv1.v, Fmt/DmxScalar.v, Fmt/DmxKv2.v, Fmt/DmxKv2Nested.v, Fmt/DmxValText.v '
                       '(each tied by a byte-/text-exact or structural differential run on every run); shared models Bin/Struct.v, '
                       'Text/Tokenizer.v (C02), Num/Dec6.v (C05)')
+    ck.trusted.append('harness/c14_util.py effective(): independent simulation of the ordered casefold-keyed dict under API histories (compared '
+                      'with the real object before every searched round trip); hand-written models Fmt/DmxMembers.v, Fmt/DmxMembersParse.v, '
+                      'Fmt/DmxKv1Sel.v (tied through correspondence:binary codes 3-5 and correspondence:kv1-bridge)')
     ck.trusted.append('harness/c14_util.py canon(): breadth-first numbering of the object graph; checks/c14.py wire_bytes (plain struct, for the '
                       'binary body correspondence), ntree_of (root selection of the nested layout recomputed for the text comparison), '
                       'float <-> binary32 pattern conversion with struct "<f" when writing Coq literals')
@@ -1382,7 +1501,8 @@ def run(ck: Ck) -> None:
         'binary64 * and / are rn64 of the exact result at the operands of the TIME codec (no overflow / subnormals there); compared with '
         'CPython on every run (correspondence:scalar-codecs), |rn64 x - x| <= 2^-53 |x| is proved',
         'FrozenAngle(x, y, z) keeps components that are binary32 values in [0, 360) (run-time obligation on sampled patterns)',
-        'attribute names of one element are distinct after casefold (true of every Element: _members is keyed by the casefolded name)',
+        'attribute names of one element are distinct after casefold: proved for every history of the mapping API on a fresh element and for '
+        'every dict a reader builds (keyed_by_fold, keys_nodup); the member keyed "name" is taken for the element name whatever its spelling',
         'str.casefold is the per-character table of the running CPython (regenerated); it fixes "name", "subkeys" and the type keywords',
         'float(text) is the correctly rounded value of the decimal (CPython strtod); str(float) round-trips (TIME / MATRIX text): oracle only',
     ]
@@ -1390,20 +1510,31 @@ def run(ck: Ck) -> None:
     ok_t = ck.translate('EscTables_gen', c02_tables.translate) and ck.translate('DmxCodes_gen', c14_dmx.translate)
     side = ck.extra.get('translated', {}).get('DmxCodes_gen', {})
     built = ok_t and ck.build(['Gen/DmxCodes_gen.vo', 'Props/C14.vo'])
+    import os
+    import time as _time
+    t0 = [_time.time()]
+    stage_s: dict = {}
+
+    def stage(name: str, fn, *a) -> None:
+        fn(*a)
+        t1 = _time.time()
+        stage_s[name] = round(t1 - t0[0], 1)
+        t0[0] = t1
     if built:
-        ck.theorems('Props/C14.v')
-        ck.instance_obligations(IMPORTS, OBLIGATIONS)
-        runtime_agreement(ck, side)
-        angle_norm_identity(ck)
-        corr_scalar(ck)
-        corr_binary(ck)
-        corr_kv2(ck)
-        corr_keyword_predicate(ck)
-        corr_kv2_nested(ck)
-        corr_value_text(ck)
-        corr_kv1(ck)
-    search_graphs(ck)
-    search_kv1(ck)
+        stage('print_assumptions', ck.theorems, 'Props/C14.v')
+        stage('instance_obligations', ck.instance_obligations, IMPORTS, OBLIGATIONS)
+        stage('runtime', lambda: (runtime_agreement(ck, side), angle_norm_identity(ck)))
+        stage('corr_scalar', corr_scalar, ck)
+        stage('corr_binary', corr_binary, ck)
+        stage('corr_kv2', corr_kv2, ck)
+        stage('corr_keyword_predicate', corr_keyword_predicate, ck)
+        stage('corr_kv2_nested', corr_kv2_nested, ck)
+        stage('corr_value_text', corr_value_text, ck)
+        stage('corr_kv1', corr_kv1, ck)
+    stage('search_graphs', search_graphs, ck)
+    stage('search_kv1', search_kv1, ck)
+    if os.environ.get('C14_TIMING'):
+        print('stage seconds:', stage_s)
     keys = [v['key'] for v in ck.violations]
     for ob, (pfx, part) in EXPLAIN.items():
         if any(k.startswith(pfx) and part in k for k in keys):
